@@ -176,6 +176,8 @@ class Worker:
         """Tasks queued up for execution."""
         self._cancelled_task_ids: set[RuntimeAddress] = set()
         """To ensure newly-received cancelled tasks are never started."""
+        self._num_unreported_cancelled = 0
+        """Tasks dropped due to a cancel that the boss still counts."""
         self._active_task: RuntimeTask | None = None
         """The currently executing task if one is running."""
         self._running = True
@@ -372,8 +374,8 @@ class Worker:
             for themselves using breadcrumbs and the original `addr` cancel
             message.
         """
-        # TODO: Send update message?
         self._cancelled_task_ids.add(addr)
+        num_dropped = len(self._delayed_tasks)
 
         # Remove all tasks that are children of `addr` from initialized tasks
         for key, task in list(self._tasks.items()):
@@ -382,12 +384,20 @@ class Worker:
                 for mailbox_id in task.owned_mailboxes:
                     self._mailboxes.pop(mailbox_id)
                 self._tasks.pop(key, None)
+                num_dropped += 1
 
         # Remove all tasks that are children of `addr` from delayed tasks
         self._delayed_tasks = [
             t for t in self._delayed_tasks
             if not t.is_descendant_of(addr)
         ]
+        num_dropped -= len(self._delayed_tasks)
+
+        # The boss still counts the dropped tasks as outstanding. Only the
+        # main thread sends on the connection, so wake it to report them.
+        if num_dropped > 0:
+            self._num_unreported_cancelled += num_dropped
+            self._ready_task_ids.put(addr)
 
     def _handle_communicate(
         self,
@@ -403,6 +413,14 @@ class Worker:
     def _get_next_ready_task(self) -> RuntimeTask | None:
         """Return the next ready task if one exists, otherwise block."""
         while True:
+            with self._state_lock:
+                num_dropped = self._num_unreported_cancelled
+                self._num_unreported_cancelled = 0
+
+            if num_dropped > 0:
+                # Let the boss know these tasks will never send a result
+                self._conn.send((RuntimeMessage.UPDATE, -num_dropped))
+
             with self._state_lock:
                 if (
                     self._ready_task_ids.empty()
@@ -445,7 +463,8 @@ class Worker:
                     # removed from the ready queue because it is much
                     # cheaper to just discard cancelled tasks as they
                     # come out.
-                    self._tasks.pop(addr, None)
+                    if self._tasks.pop(addr, None) is not None:
+                        self._num_unreported_cancelled += 1
                     continue
 
                 task = self._tasks[addr]
@@ -458,7 +477,8 @@ class Worker:
                     # cancelled then discard this one too. Each breadcrumb
                     # (bcb) is a task address (unique system-wide task id)
                     # of an ancestor task.
-                    self._tasks.pop(addr, None)
+                    if self._tasks.pop(addr, None) is not None:
+                        self._num_unreported_cancelled += 1
                     continue
 
                 return task
